@@ -9,6 +9,7 @@ import (
 	"runtime"
 	"strings"
 	"sync"
+	"time"
 
 	"github.com/lianxiangcloud/linkchain/libs/ser"
 
@@ -37,10 +38,10 @@ func measured(f func(), bound uint64) uint64 {
 		if d := b.TotalAlloc - a.TotalAlloc; d < best {
 			best = d
 		}
-		if best <= bound || best > bound+(32<<20) {
-			break // within bounds, or far beyond what concurrent harness goroutines could account for
+		if best <= bound {
+			break
 		}
-		runtime.Gosched()
+		time.Sleep(time.Millisecond) // let a concurrent burst (a long TLC line being parsed) pass
 	}
 	return best
 }
@@ -54,6 +55,7 @@ type grammarStats struct {
 	lenientBy   map[string]int // by strict error class
 	ibDropped   int            // model error inside an interface body, real decoder accepted (dropped inner error)
 	ibSeen      int
+	ibExamples  []string
 	values      int // model values encoded
 	mutations   int
 	perTarget   map[string]int
@@ -61,11 +63,19 @@ type grammarStats struct {
 	maxAlloc    uint64
 	maxAllocIn  string
 	allocProbed int
+	probes      []probeIn
+	probeSeen   map[string]bool
 	sample      []interface{}
 }
 
+type probeIn struct {
+	Tgt  string `json:"t"`
+	Hex  string `json:"h"`
+	What string `json:"w"`
+}
+
 func newGrammarStats() *grammarStats {
-	return &grammarStats{lenientBy: map[string]int{}, perTarget: map[string]int{}, classDrift: map[string]int{}}
+	return &grammarStats{lenientBy: map[string]int{}, perTarget: map[string]int{}, classDrift: map[string]int{}, probeSeen: map[string]bool{}}
 }
 
 func hexOf(xs []int) string { return fmt.Sprintf("%x", intsToBytes(xs)) }
@@ -118,6 +128,14 @@ func checkDecode(c *core.Ctx, gs *grammarStats, tg *target, in []int, r, st verd
 	gs.mu.Lock()
 	gs.inputs++
 	gs.perTarget[tg.name]++
+	if probeAlloc {
+		// allocation is measured afterwards in single-threaded child processes (allocprobe.go)
+		k := tg.name + " " + string(b)
+		if !gs.probeSeen[k] {
+			gs.probeSeen[k] = true
+			gs.probes = append(gs.probes, probeIn{Tgt: tg.name, Hex: fmt.Sprintf("%x", b), What: what})
+		}
+	}
 	if r.Ok {
 		gs.accepted++
 		if !st.Ok {
@@ -141,26 +159,7 @@ func checkDecode(c *core.Ctx, gs *grammarStats, tg *target, in []int, r, st verd
 	for _, entry := range entries {
 		var val reflect.Value
 		var res callResult
-		if probeAlloc {
-			al := measured(func() { val, res = tg.decode(b, entry) }, allocBound(len(b)))
-			res.alloc = al
-			gs.mu.Lock()
-			gs.allocProbed++
-			if al > gs.maxAlloc {
-				gs.maxAlloc, gs.maxAllocIn = al, fmt.Sprintf("%s %x", tg.name, b)
-			}
-			gs.mu.Unlock()
-			if al > allocBound(len(b)) {
-				key := "alloc/" + tg.name
-				if tg.name == "map" {
-					key = "alloc/map-claimed-length"
-				}
-				c.Violate(key, fmt.Sprintf("decoding %d bytes into %s allocated %d bytes (bound %d): the claimed length is allocated before the input is checked", len(b), tg.goType, al, allocBound(len(b))),
-					rec(entry, map[string]interface{}{"allocated": al, "bound": allocBound(len(b))}))
-			}
-		} else {
-			val, res = tg.decode(b, entry)
-		}
+		val, res = tg.decode(b, entry)
 		gs.mu.Lock()
 		gs.calls++
 		gs.mu.Unlock()
@@ -179,6 +178,9 @@ func checkDecode(c *core.Ctx, gs *grammarStats, tg *target, in []int, r, st verd
 			// decodes "successfully" (observation, not claimed by the property)
 			gs.mu.Lock()
 			gs.ibDropped++
+			if len(gs.ibExamples) < 6 && (gs.ibDropped%977 == 1 || len(gs.ibExamples) < 2) {
+				gs.ibExamples = append(gs.ibExamples, fmt.Sprintf("%s(%x) into %s: specification %s inside the interface body, code accepts", entry, b, tg.goType, r.C))
+			}
 			gs.mu.Unlock()
 			continue
 		}
